@@ -108,7 +108,7 @@ def gen_cases(rng, tier):
         if r < 0.2:
             op = ['pow', C02._opd(rng, u, kx), rng.choice([-2, -1, 2, 3])]
             if op[2] < 0 and op[1][0] == 'q':
-                op[1][1] = ['dec', rng.choice(['1000/1', '-3000/1', '2000/1'])]
+                op[1][1] = C02._nonzero_stored(rng, w, op[1][2])
         else:
             op = [rng.choice(['mul', 'div']), C02._opd(rng, u, kx), C02._opd(rng, v, ky)]
         hist = []
@@ -160,6 +160,31 @@ def gen_cases(rng, tier):
               C02._opd(rng, ub, rng.choice('qu'))]
         late = [{'d': 'derive', 'cls': f"W{tag}", 'units': [ua, ub],
                  'sym': rng.choice([None, f"{tag}w"])}]
+        cases.append({'dm': rng.choice(W.MODES), 'pre': False, 'script': script,
+                      'hist': [op] * rng.choice([1, 2]), 'late': late,
+                      'q': {'k': 'op', 'o': op}, 'perm': None})
+    # a type WITHOUT reference unit: the product of two units is undefined until a unit for it
+    # is declared - declaring the unit (not a type) must make the retried operation succeed
+    # (seeded C17-g: a memo of undefined operations reset by type declarations only)
+    for i in range(16 if tier == 'quick' else 160):
+        tag = ''.join(rng.choice('abcdefghk') for _ in range(3))
+        e1 = rng.choice([1, -1])
+        script = [
+            {'d': 'cls', 'name': f"A{tag}", 'def': None, 'ref': None, 'quantum': None},
+            {'d': 'unit', 'cls': f"A{tag}", 'sym': f"{tag}a1", 'def': None},
+            {'d': 'unit', 'cls': f"A{tag}", 'sym': f"{tag}a2", 'def': None},
+            {'d': 'cls', 'name': f"B{tag}", 'def': None, 'ref': f"{tag}b", 'quantum': None},
+            {'d': 'unit', 'cls': f"B{tag}", 'sym': f"{tag}kb", 'def': ['qty', ['int', '1000/1'], f"{tag}b"]},
+            {'d': 'cls', 'name': f"V{tag}", 'def': [[f"A{tag}", 1], [f"B{tag}", e1]], 'ref': None,
+             'quantum': None},
+            {'d': 'derive', 'cls': f"V{tag}", 'units': [f"{tag}a2", f"{tag}b"], 'sym': None},
+        ]
+        ua, ub = f"{tag}a1", rng.choice([f"{tag}b", f"{tag}kb"])
+        op = ['mul' if e1 > 0 else 'div', C02._opd(rng, ua, rng.choice('qu')),
+              C02._opd(rng, ub, rng.choice('qu'))]
+        if op[2][0] == 'q' and op[0] == 'div':
+            op[2][1] = ['dec', '5/2']                       # no zero divisor
+        late = [{'d': 'derive', 'cls': f"V{tag}", 'units': [ua, f"{tag}b"], 'sym': None}]
         cases.append({'dm': rng.choice(W.MODES), 'pre': False, 'script': script,
                       'hist': [op] * rng.choice([1, 2]), 'late': late,
                       'q': {'k': 'op', 'o': op}, 'perm': None})
